@@ -683,15 +683,50 @@ fn build_short_cases(max_len: usize, quick: bool) -> Vec<Case> {
     cases
 }
 
+/// Every byte string over {'7', ' ', CR, LF} up to `max_len`, shortest first: CR runs of every length before
+/// LF (CR CR LF, CR CR CR LF), CR CR at the end of input, CR LF CR LF, LF CR, a lone CR between tokens, blank
+/// and whitespace-only lines — every arrangement at every position, not a chosen list of separators.  Read
+/// with the line scripts and the mixed token/line scripts the reference accepts, under ALL chunkings.
+fn build_ws_closure_cases(max_len: usize) -> Vec<Case> {
+    const ALPHA: [u8; 4] = [b'7', b' ', b'\r', b'\n'];
+    let mut cases = vec![];
+    for len in 0..=max_len {
+        for code in 0..(1usize << (2 * len)) {
+            let input: Vec<u8> = (0..len).map(|i| ALPHA[(code >> (2 * (len - 1 - i))) & 3]).collect();
+            let interrupts = if len <= 4 { 2 } else if len <= 5 { 1 } else { 0 };
+            let scripts = [
+                vec![Op::Lines, Op::Line, Op::Eof],
+                vec![Op::Line, Op::Line, Op::Eof, Op::Lines],
+                vec![Op::Eof, Op::Line, Op::Eof, Op::Lines],
+                vec![Op::Tok(Ty::Str), Op::Line, Op::Lines],
+                vec![Op::Tok(Ty::I32), Op::Line, Op::Lines],
+                vec![Op::Tok(Ty::Char), Op::Line, Op::Tok(Ty::Str)],
+                vec![Op::Line, Op::Tok(Ty::Str), Op::Eof],
+                vec![Op::Line, Op::Tok(Ty::U64), Op::Line, Op::Eof],
+            ];
+            for script in scripts {
+                if reference(&input, &script).is_some() {
+                    cases.push(Case { input: input.clone(), script, mode: Delivery::AllChunkings { interrupts } });
+                }
+            }
+        }
+    }
+    cases
+}
+
 fn build_long_token_cases() -> Vec<Case> {
     let mut cases = vec![];
     // every extreme value of every integer type, framed, read with its own type (and the wider ones)
     for (ty, tok) in extreme_tokens() {
-        for (lead, trail) in [("", ""), (" ", "\n"), ("\n", "\r\n"), ("", " x")] {
+        for (lead, trail) in [("", ""), (" ", "\n"), ("\n", "\r\n"), ("", " x"), ("\r\r\n", "\r\r\n"), ("\n\r", "\r\r\r\n\r\r")] {
             let input = format!("{lead}{tok}{trail}").into_bytes();
             let mut script = vec![Op::Tok(ty), Op::Eof];
             if trail == " x" {
                 script = vec![Op::Tok(ty), Op::Tok(Ty::Char), Op::Eof];
+            }
+            if trail.starts_with("\r\r") {
+                // the rest of the token's line ends in a run of CRs: read it as lines
+                script = vec![Op::Tok(ty), Op::Line, Op::Line, Op::Eof];
             }
             if reference(&input, &script).is_some() {
                 cases.push(Case { input: input.clone(), script, mode: Delivery::TwoDeviations });
@@ -718,7 +753,7 @@ fn build_long_token_cases() -> Vec<Case> {
         }
     };
     for shape in TUPLE_SHAPES {
-        for sep in [" ", "\n", "\r\n", " \r\n "] {
+        for sep in [" ", "\n", "\r\n", " \r\n ", "\r\r\n", "\n\r"] {
             let input = shape.iter().map(|t| sample(*t)).collect::<Vec<_>>().join(sep).into_bytes();
             let script = vec![Op::Tup(shape.to_vec()), Op::Eof];
             if reference(&input, &script).is_some() {
@@ -728,7 +763,12 @@ fn build_long_token_cases() -> Vec<Case> {
     }
     // integers (small ones and every extreme value) FOLLOWED by a long remainder: the reader has much more
     // than the token buffered when it parses it, or very little, depending on the delivery
-    let tails = ["the quick brown fox jumps over the lazy dog and keeps on running\nsecond line\n", " 17 rest of this fairly long line, well beyond forty bytes of it\r\nnext\r\n"];
+    let tails = [
+        "the quick brown fox jumps over the lazy dog and keeps on running\nsecond line\n",
+        " 17 rest of this fairly long line, well beyond forty bytes of it\r\nnext\r\n",
+        // lines whose data ends in CRs before the terminator, LF CR, CR CR at the end of input
+        " 17 rest of this fairly long line, with CRs before its end\r\r\nnext\r\r\r\n\n\rlast\r\r",
+    ];
     let mut heads: Vec<(Ty, String)> = extreme_tokens();
     heads.extend([(Ty::I32, "-3".to_string()), (Ty::U8, "7".to_string()), (Ty::I64, "0".to_string()), (Ty::U128, "12345678901234567890123".to_string()), (Ty::I128, "-12345678901234567890123".to_string())]);
     for (ty, tok) in heads {
@@ -756,6 +796,11 @@ fn build_long_token_cases() -> Vec<Case> {
     let input = b"3\n10 -20 30\r\nsome words here\r\n\r\nlast line".to_vec();
     cases.push(Case { input: input.clone(), script: vec![Op::Tok(Ty::Usize), Op::Vec(Ty::I32, 3), Op::Line, Op::Line, Op::Lines, Op::Eof], mode: Delivery::TwoDeviations });
     cases.push(Case { input, script: vec![Op::Lines], mode: Delivery::TwoDeviations });
+    // the same with runs of CRs in and before the line terminators
+    let input = b"3\r\r\n10 -20 30\r\r\r\nsome words here\r\n\r\r\n\n\rlast line\r\r".to_vec();
+    cases.push(Case { input: input.clone(), script: vec![Op::Tok(Ty::Usize), Op::Line, Op::Vec(Ty::I32, 3), Op::Line, Op::Line, Op::Lines, Op::Eof], mode: Delivery::TwoDeviations });
+    cases.push(Case { input: input.clone(), script: vec![Op::Line, Op::Tok(Ty::I8), Op::Line, Op::Eof, Op::Lines], mode: Delivery::TwoDeviations });
+    cases.push(Case { input, script: vec![Op::Lines], mode: Delivery::TwoDeviations });
     cases
 }
 
@@ -773,6 +818,12 @@ fn build_boundary_cases(b: usize, quick: bool) -> (Vec<Case>, Vec<Vec<Step>>) {
         ("   \r\n  x", vec![Op::Eof, Op::Tok(Ty::Char), Op::Eof]),
         ("  \n \r\n", vec![Op::Eof, Op::Line]),
         ("q", vec![Op::Tok(Ty::Char), Op::Eof, Op::Line]),
+        // runs of CRs before LF, LF CR, CR CR at the end of input, straddling the boundary at every offset
+        ("ab\r\r\ncd\r\r", vec![Op::Line, Op::Line, Op::Line, Op::Line]),
+        ("x\r\r\r\ny\n\r\nz", vec![Op::Line, Op::Line, Op::Line, Op::Line, Op::Line]),
+        ("word\r\r\nnext\n\r\r\n\rz", vec![Op::Tok(Ty::Str), Op::Line, Op::Line, Op::Line, Op::Line, Op::Line]),
+        ("7\r\r\n-8\r\r", vec![Op::Tok(Ty::U8), Op::Line, Op::Tok(Ty::I8), Op::Lines]),
+        ("  \r\r\n \r x", vec![Op::Eof, Op::Tok(Ty::Char), Op::Eof]),
     ];
     let step = if quick { 1 } else { 1 };
     for (sp, tail_script) in &specials {
@@ -806,6 +857,13 @@ fn build_boundary_cases(b: usize, quick: bool) -> (Vec<Case>, Vec<Vec<Step>>) {
         *input.last_mut().unwrap() = b'\r';
         cases.push(Case { input: input.clone(), script: vec![Op::Line, Op::Line, Op::Eof], mode: Delivery::Listed });
         *input.last_mut().unwrap() = b'\n';
+        cases.push(Case { input: input.clone(), script: vec![Op::Line, Op::Line, Op::Eof], mode: Delivery::Listed });
+        // the input ends in CR CR LF / CR CR
+        let n = input.len();
+        input[n - 3..n - 1].fill(b'\r');
+        cases.push(Case { input: input.clone(), script: vec![Op::Line, Op::Line, Op::Eof], mode: Delivery::Listed });
+        input[n - 3] = b'7';
+        input[n - 1] = b'\r';
         cases.push(Case { input, script: vec![Op::Line, Op::Line, Op::Eof], mode: Delivery::Listed });
     }
     // plans: default; one short read that moves the boundary by 1..3 bytes; an Interrupted before the
@@ -856,7 +914,11 @@ fn judge(case: &Case, idx: usize, plans: &[Vec<Step>]) -> Tot {
     let expect = reference(&case.input, &case.script).unwrap();
     t.cases = 1;
     t.outcomes.insert(fnv(format!("{:?}", expect).as_bytes()));
-    let mut first: Option<Vec<String>> = None;
+    // the default delivery (every read fills the buffer offered) of the same bytes: every other delivery
+    // must return what this one returns, whatever the reference parser says
+    let base = run_real(&case.input, &[], &case.script);
+    t.execs += 1;
+    let lone_cr = has_lone_cr(&case.input);
     let mut seen: [bool; 3] = [false; 3];
     for plan in plans {
         let ex = run_real(&case.input, plan, &case.script);
@@ -882,23 +944,51 @@ fn judge(case: &Case, idx: usize, plans: &[Vec<Step>]) -> Tot {
                     fail("panic_on_valid_script", 1, format!("the reader panicked: {p}"), &mut t);
                 }
             }
-            Ok(v) => {
-                if first.is_none() {
-                    first = Some(v.clone());
-                }
-                if *v != expect {
-                    // is it the delivery, or the bytes?
-                    let single = run_real(&case.input, &[], &case.script);
-                    if single.out.as_ref().ok() == Some(&expect) || single.out.as_ref().ok() != Some(v) {
-                        fail("delivery_dependence", 2, format!("this delivery returned {:?}; the reference parser (and the result the property demands for every delivery) is {:?}; single-chunk delivery returned {:?}", v, expect, single.out), &mut t);
-                    } else if !has_lone_cr(&case.input) {
-                        fail("reference_mismatch", 2, format!("every delivery returns {:?}, the reference parser gives {:?}", v, expect), &mut t);
-                    }
-                }
-            }
+            Ok(v) => match judge_values(v, &base.out, &expect, lone_cr) {
+                Some((family, msg)) => fail(family, 2, msg, &mut t),
+                None => {}
+            },
         }
     }
     t
+}
+
+/// The oracle for one delivery that returned `v`.  `delivery_dependence` (judged on ALL inputs): the values
+/// differ from those of the default delivery of the same bytes (or, if that one panicked, from the
+/// reference).  `reference_mismatch` (judged only where the property defines the answer, i.e. not on inputs
+/// with a CR that is not followed by LF): every delivery agrees but the reference parser says otherwise.
+fn judge_values(v: &[String], base: &Result<Vec<String>, String>, expect: &[String], lone_cr: bool) -> Option<(&'static str, String)> {
+    let deviates = match base {
+        Ok(bv) => v != &bv[..],
+        Err(_) => v != expect,
+    };
+    if deviates {
+        let base_shown = match base {
+            Ok(bv) => shorten(bv),
+            Err(p) => format!("a panic ({p})"),
+        };
+        Some(("delivery_dependence", format!("this delivery returned {}; the default delivery (every read fills the buffer offered) of the same bytes returned {}; the property demands the same values for every delivery (reference parser: {})", shorten(v), base_shown, shorten(expect))))
+    } else if v != expect && !lone_cr {
+        Some(("reference_mismatch", format!("every delivery returns {}, the reference parser gives {}", shorten(v), shorten(expect))))
+    } else {
+        None
+    }
+}
+
+/// returned values for a message: long ones (64 KiB filler tokens) abbreviated
+fn shorten(v: &[String]) -> String {
+    let parts: Vec<String> = v
+        .iter()
+        .map(|x| {
+            let n = x.chars().count();
+            if n <= 96 {
+                x.clone()
+            } else {
+                format!("{}…({} chars)…{}", x.chars().take(24).collect::<String>(), n, x.chars().skip(n - 24).collect::<String>())
+            }
+        })
+        .collect();
+    format!("[{}]", parts.join(", "))
 }
 
 fn describe(input: &[u8]) -> String {
@@ -944,11 +1034,14 @@ fn confirm(v: &Value) -> Result<(), String> {
         Some(e) => e,
         None => return Ok(()),
     };
+    let base = run_real(&input, &[], &script);
     let ex = run_real(&input, &plan, &script);
     match ex.out {
         Err(p) => Err(format!("the reader panicked: {p}")),
-        Ok(got) if got != expect => Err(format!("returned {:?}, the bytes determine {:?}", got, expect)),
-        Ok(_) => Ok(()),
+        Ok(got) => match judge_values(&got, &base.out, &expect, has_lone_cr(&input)) {
+            Some((family, msg)) => Err(format!("{family}: {msg}")),
+            None => Ok(()),
+        },
     }
 }
 
@@ -970,12 +1063,15 @@ fn main() {
     run.cov("observed_buffer_size", b as u64);
 
     let short = build_short_cases(if quick { 10 } else { 13 }, quick);
+    let closure = build_ws_closure_cases(if quick { 7 } else { 8 });
+    let n_closure = closure.len();
+    let closure_cr_run_inputs = closure.iter().filter(|c| c.input.windows(3).any(|w| w == b"\r\r\n")).count();
     let long = build_long_token_cases();
     let (boundary, boundary_plans) = build_boundary_cases(b, quick);
     let n_short = short.len();
     let n_long = long.len();
     let n_boundary = boundary.len();
-    let all: Vec<Case> = short.into_iter().chain(long).chain(boundary).collect();
+    let all: Vec<Case> = short.into_iter().chain(closure).chain(long).chain(boundary).collect();
 
     let tot = all
         .par_iter()
@@ -1017,6 +1113,8 @@ fn main() {
     run.cov("evaluations", tot.execs);
     run.cov("distinct_nontrivial", tot.cases);
     run.cov("cases_short_all_chunkings", n_short as u64);
+    run.cov("cases_ws_alphabet_closure_all_chunkings", n_closure as u64);
+    run.cov("cases_ws_alphabet_closure_with_cr_cr_lf", closure_cr_run_inputs as u64);
     run.cov("cases_long_two_deviations", n_long as u64);
     run.cov("cases_buffer_boundary", n_boundary as u64);
     run.cov("executions_with_interrupted", tot.interrupted_execs);
@@ -1024,12 +1122,15 @@ fn main() {
     run.cov("distinct_expected_outcomes", tot.outcomes.len() as u64);
     run.cov("failing_cases_per_family", json!(fam_counts));
     run.cov("exhaustive", true);
-    run.cov("rule", "evaluations = executions of the real Reader (one per (input, script, delivery plan)); distinct_nontrivial = distinct (input, script) pairs accepted by the reference parser as valid scripts. Short inputs (<= 10 bytes quick / 13 thorough, built from tokens x separators incl. CRLF, lone CR, blank lines): ALL 2^(L-1) chunkings, plus every placement of <= 2 Interrupted for L <= 5 (quick) / 6 and <= 1 for L <= 7 / 9; extreme values of all 12 integer types, tuples of arity 2..8 and multi-line text: every placement of <= 2 deviations (short read / Interrupted) plus byte-at-a-time; integers of every width (extreme values included) followed by 60-90 further bytes under mixed token/line scripts: additionally every uniform chunk size 1..=L; inputs as long as the observed internal buffer with the interesting bytes at every offset around the boundary under 21 listed plans");
+    run.cov("rule", "evaluations = executions of the real Reader (one per (input, script, delivery plan)); distinct_nontrivial = distinct (input, script) pairs accepted by the reference parser as valid scripts. Short inputs (<= 10 bytes quick / 13 thorough, built from tokens x separators incl. CRLF, lone CR, blank lines): ALL 2^(L-1) chunkings, plus every placement of <= 2 Interrupted for L <= 5 (quick) / 6 and <= 1 for L <= 7 / 9; EVERY byte string over {'7', SP, CR, LF} of length <= 7 (quick) / 8 (so every run of CRs before LF, CR CR at end of input, CR LF CR LF, LF CR, lone CR between tokens, at every position) under line scripts and mixed token/line scripts: ALL chunkings, plus <= 2 Interrupted for L <= 4 and <= 1 for L = 5; extreme values of all 12 integer types, tuples of arity 2..8 and multi-line text: every placement of <= 2 deviations (short read / Interrupted) plus byte-at-a-time; integers of every width (extreme values included) followed by 60-90 further bytes under mixed token/line scripts (tails with CR runs before the terminators included): additionally every uniform chunk size 1..=L; inputs as long as the observed internal buffer with the interesting bytes (extreme integers, sign/digit cuts, CR LF pairs, CR runs before LF, LF CR, CR CR at end of input) at every offset around the boundary under 21 listed plans. Oracle per case: every delivery must return what the default delivery (each read fills the buffer offered) of the same bytes returns (delivery_dependence, all inputs), and that common result must equal the reference parser's where the property defines it (reference_mismatch, inputs without a lone CR)");
     for c in all.iter().step_by((all.len() / 6).max(1)).take(6) {
         run.sample(json!({"input": describe(&c.input), "script": c.script.iter().map(op_to_json).collect::<Vec<_>>(), "expected": reference(&c.input, &c.script)}));
     }
     run.assume("reference parser: tokens are maximal runs of non-ASCII-whitespace; a line ends at LF or CRLF (terminator dropped), a CR not followed by LF is part of the line; the reference_mismatch family is not judged on inputs with a lone CR (the property does not define them), delivery_dependence is judged on all inputs");
     run.assume("scripts the reference parser rejects (a token that is not there / does not fit the type) are outside the property and are not executed");
+    if closure_cr_run_inputs < 100 {
+        run.machinery_failure("the whitespace-alphabet family contains too few inputs with a run of CRs before LF");
+    }
     if tot.execs < 100_000 || tot.interrupted_execs < 1000 || tot.straddle < 1000 || n_boundary < 50 {
         run.machinery_failure("exploration implausibly small");
     }
